@@ -231,4 +231,99 @@ theorem optionStmt1_erase (n : Nat) (name : String) (s : Bool) (v : Opt) :
       have := msgFields_erase n (x :: r)
       cases x <;> simp_all [eraseKeys, eraseKids]
 
+/-! ## indentation: the lines on a builder with indentation `m + n` are those of indentation `n`, moved right -/
+
+theorem ind_add (n m : Nat) (s : String) : ind (n + m) s = ind n (ind m s) := by
+  unfold ind
+  rw [← String.append_assoc]
+  congr 1
+  apply String.ext
+  simp only [String.toList_append, String.toList_ofList]
+  rw [Nat.mul_add, List.replicate_append_replicate]
+
+theorem ind_zero (s : String) : ind 0 s = s := by
+  unfold ind
+  simp
+
+theorem ind_add1 (m n : Nat) (s : String) : ind (m + n + 1) s = ind m (ind (n + 1) s) := by
+  rw [Nat.add_assoc, ind_add]
+
+theorem ind_add2 (m n : Nat) (s : String) : ind (m + n + 2) s = ind m (ind (n + 2) s) := by
+  rw [Nat.add_assoc, ind_add]
+
+theorem arrLines_ind_of (m n : Nat) (op tr : String) (ks : List Opt)
+    (h1 : ∀ f, arrMsgs (m + n) f ks = (arrMsgs n f ks).map (ind m))
+    (h2 : arrScalars (m + n + 1) ks = (arrScalars (n + 1) ks).map (ind m)) :
+    arrLines (m + n) op ks tr = (arrLines n op ks tr).map (ind m) := by
+  match ks with
+  | [] => simp [arrLines, ind_add]
+  | [.scalar _ v] => simp [arrLines, ind_add]
+  | .msg k ks' :: rest =>
+    simp only [arrLines, h1 true, List.map_cons, List.map_append, List.map_nil, ind_add, List.cons_append]
+  | .scalar k v :: x :: rest =>
+    simp only [arrLines, h2, List.map_cons, List.map_append, List.map_nil, ind_add, List.cons_append]
+  | .arr k ks' :: rest =>
+    cases rest with
+    | nil => simp only [arrLines, h2, List.map_cons, List.map_append, List.map_nil, ind_add, List.cons_append]
+    | cons x xs => simp only [arrLines, h2, List.map_cons, List.map_append, List.map_nil, ind_add, List.cons_append]
+
+mutual
+theorem msgFields_ind : ∀ (m n : Nat) (ks : List Opt), msgFields (m + n) ks = (msgFields n ks).map (ind m)
+  | _, _, [] => by simp [msgFields]
+  | m, n, .scalar k v :: r => by simp [msgFields, msgFields_ind m n r, ind_add1]
+  | m, n, .msg k ks :: r => by
+    have h1 := msgFields_ind m (n + 1) ks
+    rw [← Nat.add_assoc] at h1
+    simp [msgFields, h1, msgFields_ind m n r, ind_add1]
+  | m, n, .arr k ks :: r => by
+    have h1 : ∀ f, arrMsgs (m + (n + 1)) f ks = (arrMsgs (n + 1) f ks).map (ind m) := fun f => arrMsgs_ind m (n + 1) f ks
+    have h2 := arrScalars_ind m (n + 2) ks
+    have := arrLines_ind_of m (n + 1) (k ++ ": ") "" ks h1 (by rw [Nat.add_assoc m (n + 1) 1]; exact h2)
+    rw [← Nat.add_assoc] at this
+    simp only [msgFields, this, msgFields_ind m n r, List.map_append]
+theorem arrMsgs_ind : ∀ (m n : Nat) (f : Bool) (ks : List Opt), arrMsgs (m + n) f ks = (arrMsgs n f ks).map (ind m)
+  | _, _, _, [] => by simp [arrMsgs]
+  | m, n, f, .scalar k v :: r => by cases f <;> simp [arrMsgs, arrMsgs_ind m n false r, ind_add]
+  | m, n, f, .msg k ks :: r => by cases f <;> simp [arrMsgs, msgFields_ind m n ks, arrMsgs_ind m n false r, ind_add]
+  | m, n, f, .arr k ks :: r => by cases f <;> simp [arrMsgs, arrMsgs_ind m n false r, ind_add]
+theorem arrScalars_ind : ∀ (m n : Nat) (ks : List Opt), arrScalars (m + n) ks = (arrScalars n ks).map (ind m)
+  | _, _, [] => by simp [arrScalars]
+  | m, n, [.scalar k v] => by simp [arrScalars, ind_add]
+  | m, n, [.msg k ks] => by simp [arrScalars, ind_add]
+  | m, n, [.arr k ks] => by simp [arrScalars, ind_add]
+  | m, n, .scalar k v :: x :: r => by
+    have := arrScalars_ind m n (x :: r)
+    cases x <;> simp_all [arrScalars, ind_add]
+  | m, n, .msg k ks :: x :: r => by
+    have := arrScalars_ind m n (x :: r)
+    cases x <;> simp_all [arrScalars, ind_add]
+  | m, n, .arr k ks :: x :: r => by
+    have := arrScalars_ind m n (x :: r)
+    cases x <;> simp_all [arrScalars, ind_add]
+end
+
+theorem fieldBody_ind (m : Nat) : ∀ (ps : List POpt), fieldBody m ps = (fieldBody 0 ps).map (ind m)
+  | [] => rfl
+  | p :: rest => by
+    have ih := fieldBody_ind m rest
+    have hm := msgFields_ind m 1
+    have e1 : ∀ s : String, ind (m + 1) s = ind m (ind (0 + 1) s) := fun s => ind_add m 1 s
+    simp only [fieldBody, ih]
+    cases p.inl with
+    | some v => simp [e1]
+    | none =>
+      cases p.root with
+      | scalar k v => simp [e1]
+      | arr k ks => simp
+      | msg k ks => simp [e1, hm]
+
+theorem fieldStyle_ind (m : Nat) (head number : String) (ps : List POpt) :
+    fieldStyle m head number ps "" = (fieldStyle 0 head number ps "").map (ind m) := by
+  unfold fieldStyle
+  split
+  · simp [ind_zero]
+  · split
+    · simp [ind_zero]
+    · simp only [List.map_append, List.map_cons, List.map_nil, ind_zero, fieldBody_ind m ps, List.cons_append]
+
 end J5V.Print.OptionText
